@@ -669,6 +669,11 @@ def check_approach(case):
     near = transverse(np.abs(c1))[0] + transverse(np.abs(g))[0]
     if c2 is not None:
         near = near + transverse(np.abs(c2))[0]
+    else:
+        # a single cell along the axis: the neighbour on the far side of the cell centre is the ghost cell of
+        # the OTHER face, whose size is set by that face's condition (false alarm of the thorough tier: data of
+        # scale 1e-3 next to a Dirichlet value of order one)
+        near = near + transverse(np.abs(gb.face_arrays(ref, gspec, a, not upper)[0]))[0]
     for fr in fracs:
         s = fr * dx
         p = list(base)
